@@ -359,6 +359,7 @@ UN_XSD = f'''<?xml version="1.0" encoding="UTF-8"?>
               <xs:element name="tok" type="u:Tok" minOccurs="0"/>
               <xs:element name="w" type="u:Wp" minOccurs="0"/>
               <xs:element name="v" type="u:V" minOccurs="0" maxOccurs="unbounded"/>
+              <xs:element name="nums" type="u:IntList" minOccurs="0" maxOccurs="unbounded"/>
             </xs:sequence>
             <xs:attribute name="a" type="u:Code"/>
             <xs:attribute name="b" type="u:U"/>
@@ -722,6 +723,9 @@ def gen_un(rng, fault=None):
         # overlapping member types: the first member in declared order that accepts the text decides the value
         for _ in range(rng.choice((0, 1, 2))):
             item.children.append(N(UN, 'v', text=rng.choice(('007', '12', 'x', ' 5 ', 'none', '1e3'))))
+        # a repeatable element of list type: its values are lists, also the empty one
+        for _ in range(rng.choice((0, 0, 1, 2))):
+            item.children.append(N(UN, 'nums', text=rng.choice(('1 2', '7', '', '3 4 5')), meta={'bad_text': '1 x'}))
         root.children.append(item)
     if rng.random() < 0.4:
         # one child admitted by a wildcard with maxOccurs=1: a global element of list type or of an atomic type
